@@ -209,17 +209,18 @@ def build_ptg(ctx):
     return (exe, '') if ok else (None, 'compile of generated code failed: ' + log[-1500:])
 
 
-def run_ptg(ctx, res, dist):
+def run_ptg(ctx, res, dist, runs=None):
     """Tie (b): real multi-rank runs of a PTG program whose completion is detected by the four-counter module."""
     exe, log = build_ptg(ctx)
     if exe is None:
         res.infra_errors.append('C11_ptg: ' + log); return
     env = {'OMPI_ALLOW_RUN_AS_ROOT': '1', 'OMPI_ALLOW_RUN_AS_ROOT_CONFIRM': '1'}
-    runs = [(2, 0)] if ctx.quick else [(1, 0), (2, 0), (3, 0), (4, 0), (2, 1)]
+    if runs is None:
+        runs = [(2, 0)] if ctx.quick else [(1, 0), (2, 0), (3, 0), (4, 0), (2, 1)]
     dist['ptg_runs'] = []
     for ranks, late in runs:
         e = dict(env); e['C11_LATE_TASKPOOL'] = str(late)
-        tmo = 240 if ctx.quick else 420
+        tmo = 150 if late else 240 if ctx.quick else 300
         rc, out, err = pv.sh(['timeout', '-s', 'KILL', str(tmo), 'mpiexec', '-x', 'C11_LATE_TASKPOOL', '-n', str(ranks), '--oversubscribe', exe], env=e, timeout=tmo + 60)
         lines = [l for l in out.splitlines() if l.startswith('C11_ptg rank')]
         good = rc == 0 and len(lines) == ranks and all(re.search(r'total (\d+) expected \1$', l) for l in lines)
@@ -269,7 +270,7 @@ def run(ctx, res, cases=None):
         res.samples = samples; res.extra['input_distribution'] = dist
         return
     # ---- generated cases: the harness chooses among the operations enabled in the REAL state
-    ngen, maxn, length = (500, 9, 220) if ctx.quick else (9000, 24, 400)
+    ngen, maxn, length = (500, 9, 220) if ctx.quick else (7000, 24, 400)
     rc, out, err = pv.sh([exe, 'gen', str(ngen), str(maxn), str(length)], env=env, timeout=3000)
     gcases, gstats, gviols = split_raw(out)
     for v in gviols:
@@ -337,4 +338,16 @@ def run(ctx, res, cases=None):
 
 def replay(ctx, res, data):
     cases = [v['case'] for v in data.get('violations', []) if 'case' in v] + [d['case'] for d in data.get('disagreements', []) if 'case' in d]
-    run(ctx, res, cases=[[o for o in c if o != 'explore'] for c in cases] or None)
+    real = [c for c in cases if c and c[0].startswith('mpiexec')]
+    cases = [[o for o in c if o != 'explore'] for c in cases if not (c and c[0].startswith('mpiexec'))]
+    if cases or not real:
+        run(ctx, res, cases=cases or None)
+    if real:
+        runs = []
+        for c in real:
+            m = re.match(r'mpiexec -n (\d+) C11_ptg \(C11_LATE_TASKPOOL=(\d)\)', c[0])
+            if m:
+                runs.append((int(m.group(1)), int(m.group(2))))
+        dist = {}
+        run_ptg(ctx, res, dist, runs=runs)
+        res.extra.setdefault('input_distribution', {}).update(dist)
